@@ -839,8 +839,9 @@ const (
 )
 
 const (
-	c17NIP11Value  = 2
-	c17NIP11Window = 100
+	c17NIP11Value = 2
+	c17NIP11Lower = 100 // created_at_lower_limit and ..upper_limit differ, so that a chain mixing them up is seen
+	c17NIP11Upper = 400
 )
 
 func c17NIP11Script() []mocrelay.ClientMsg {
@@ -859,6 +860,10 @@ func c17NIP11Script() []mocrelay.ClientMsg {
 		EventMsg(c17Event('2', 1, 0, 0, 3)),        // content length 3
 		EventMsg(c17Event('3', 1, -1000, 0, 0)),    // 1000 s too old
 		EventMsg(c17Event('4', 1, 1000, 0, 0)),     // 1000 s in the future
+		EventMsg(c17Event('6', 1, -250, 0, 0)),     // older than the lower limit, inside the upper limit's span
+		EventMsg(c17Event('7', 1, 250, 0, 0)),      // future: inside the upper limit, beyond the lower limit's span
+		EventMsg(c17Event('8', 1, -100, 0, 0)),     // exactly at the lower limit
+		EventMsg(c17Event('9', 1, 400, 0, 0)),      // exactly at the upper limit
 		EventMsg(c17Event('5', 1, 0, 2, 2)),        // tags == max, content == max, now
 		c17Sub(C17Req, "s2", c17Filters(1, nil)),   // re-REQ of an open id
 	}
@@ -890,10 +895,10 @@ func NIP11Chain(h *vsched.H) {
 			lim.MaxContentLength = c17NIP11Value
 		}
 		if set(5) {
-			lim.CreatedAtLowerLimit = c17NIP11Window
+			lim.CreatedAtLowerLimit = c17NIP11Lower
 		}
 		if set(6) {
-			lim.CreatedAtUpperLimit = c17NIP11Window
+			lim.CreatedAtUpperLimit = c17NIP11Upper
 		}
 		doc = &mocrelay.NIP11{Name: "x", Limitation: lim}
 	case C17DocNoLimitation:
@@ -926,8 +931,8 @@ func NIP11Chain(h *vsched.H) {
 	add(2, C17MaxLimit, c17NIP11Value)
 	add(3, C17MaxEventTags, c17NIP11Value)
 	add(4, C17MaxContentLength, c17NIP11Value)
-	add(5, C17CreatedAtLower, c17NIP11Window)
-	add(6, C17CreatedAtUpper, c17NIP11Window)
+	add(5, C17CreatedAtLower, c17NIP11Lower)
+	add(6, C17CreatedAtUpper, c17NIP11Upper)
 	msgs, refs := c17NIP11Script(), c17NIP11Script()
 	open := map[string]bool{}
 	var items []*c17Item
